@@ -821,14 +821,18 @@ func (e *Exec) recordRet(st *State, name string, dst ssa.Value) {
 			if !ok {
 				continue
 			}
-			if v.Tup != nil && len(v.Tup) > 0 {
-				v = v.Tup[0]
+			rs := []Val{v}
+			if v.Tup != nil {
+				rs = v.Tup
 			}
-			if v.A != nil || v.Fn != nil || v.Tup != nil || v.S == "" {
-				continue
+			for i, r := range rs {
+				if r.A != nil || r.Fn != nil || r.Tup != nil || r.S == "" || r.T == nil {
+					continue
+				}
+				g := fmt.Sprintf("%s_ret%d", name, i)
+				e.ghostGet(st, g, r.T, e.sc.zero(r.T))
+				e.ghostSet(st, g, r.T, r.S)
 			}
-			e.ghostGet(st, name+"_ret0", v.T, e.sc.zero(v.T))
-			e.ghostSet(st, name+"_ret0", v.T, v.S)
 		}
 	}
 }
